@@ -220,6 +220,7 @@ type pnode struct {
 	addr    string // listen multiaddr with the concrete port
 	up      bool
 	netOpts []netConfig.NodeOpt
+	fault   *blockFaultStore // B only
 }
 
 func newKey() []byte {
@@ -230,7 +231,7 @@ func newKey() []byte {
 	return priv
 }
 
-func bootPeerNode(name string, pubsub bool, bootstrap ...string) *pnode {
+func bootPeerNode(name string, pubsub bool, withFault bool, bootstrap ...string) *pnode {
 	p := &pnode{name: name, key: newKey()}
 	p.netOpts = []netConfig.NodeOpt{
 		netConfig.WithEnableRelay(false),
@@ -250,9 +251,33 @@ func bootPeerNode(name string, pubsub bool, bootstrap ...string) *pnode {
 	for _, o := range p.netOpts {
 		opts = append(opts, o)
 	}
-	n, err := hx.NewNode(opts...)
-	if err != nil {
-		hx.Harnessf("cannot boot peer node %s: %v", name, err)
+	var n *hx.Node
+	if withFault {
+		// The receiver runs on a root store whose block writes can be made to fail (blockFaultStore);
+		// database and peer are wired as node.Start does it.
+		inner, err := hx.NewFaultMemStore()
+		if err != nil {
+			hx.Harnessf("cannot open badger in-memory: %v", err)
+		}
+		p.fault = &blockFaultStore{TxnStore: inner}
+		n, err = hx.NewFaultNodeOn(p.fault)
+		if err != nil {
+			_ = inner.Close()
+			hx.Harnessf("cannot boot database of %s: %v", name, err)
+		}
+		popts := append([]netConfig.NodeOpt{netConfig.WithListenAddresses("/ip4/127.0.0.1/tcp/0")}, p.netOpts...)
+		np, err := net.NewPeer(n.Ctx, n.DB.Events(), n.DB.DocumentACP(), n.DB, popts...)
+		if err != nil {
+			n.Close()
+			hx.Harnessf("cannot start peer of %s: %v", name, err)
+		}
+		n.N.Peer = np
+	} else {
+		var err error
+		n, err = hx.NewNode(opts...)
+		if err != nil {
+			hx.Harnessf("cannot boot peer node %s: %v", name, err)
+		}
 	}
 	p.Node = n
 	p.info = n.N.Peer.PeerInfo()
@@ -440,6 +465,7 @@ type world struct {
 	atap               *hx.EventTap
 	btap               *mergeTap
 	aps                *pubSubTap
+	faultArmed         bool
 	docs               map[int]*mdoc // by slot; slot -1 is the canary
 	order              []int
 	aPatches, bPatches int
@@ -770,7 +796,11 @@ func (w *world) converge(full bool, where string) *hx.Failure {
 			continue
 		}
 		if len(orphan) == 0 && len(pending) > 0 && frozen >= stallWindow {
-			return w.confirmStalled(s, pending, where)
+			if f := w.confirmStalled(s, pending, where); f != nil {
+				return f
+			}
+			last, lastChange = "", time.Now()
+			continue
 		}
 		if len(orphan) == 0 && len(pending) > 0 {
 			pk := s.pendingKey(w, pending)
@@ -836,8 +866,10 @@ func (s snap) pendingKey(w *world, pending []int) string {
 func (w *world) confirmIneffective(s0 snap, pending []int, pk string, rounds int, where string) *hx.Failure {
 	w.tr.f("%s: slots %v pending unchanged over %d retry rounds; sending canary", where, pending, rounds)
 	if !w.canary() {
-		hx.Harnessf("C15 inconclusive at %s: retries achieve nothing and the canary did not reach B within %v: cannot tell a dead link from an ineffective retry\n%s%s",
-			where, canaryBudget, s0.describe(w), w.tr)
+		// the link is bad right now: nothing can be concluded about the retries; keep waiting, the
+		// overall budgets decide between convergence and an inconclusive run
+		w.tr.f("%s: canary did not reach B: cannot tell a dead link from an ineffective retry; waiting on", where)
+		return nil
 	}
 	base := -1
 	t0 := time.Now()
@@ -1005,9 +1037,50 @@ func (w *world) diagnoseOrphan(slot int, s snap) (sig, why string) {
 		}
 	}
 	if allDropped {
+		if missing, total := w.missingOnB(ah[0]); missing > 0 {
+			// B acknowledged the push (it published the merge request) although it does not hold the
+			// DAG below the head: the merge cannot load it and is dropped.
+			return "C15/obligation-lost/acked-with-incomplete-dag",
+				desc + fmt.Sprintf("; B lacks %d of the %d blocks of the head's DAG", missing, total)
+		}
 		return "C15/obligation-lost/acked-but-not-merged", desc
 	}
 	return "C15/obligation-lost", desc
+}
+
+// missingOnB walks the DAG below a head in A's blockstore and counts the blocks B does not hold.
+func (w *world) missingOnB(head string) (missing, total int) {
+	root, err := cid.Decode(head)
+	if err != nil {
+		return 0, 0
+	}
+	src := datastore.BlockstoreFrom(w.a.DB.Rootstore())
+	dst := datastore.BlockstoreFrom(w.b.DB.Rootstore())
+	seen := map[cid.Cid]bool{}
+	var walk func(c cid.Cid)
+	walk = func(c cid.Cid) {
+		if seen[c] {
+			return
+		}
+		seen[c] = true
+		total++
+		if has, err := dst.Has(w.b.Ctx, c); err == nil && !has {
+			missing++
+		}
+		b, err := src.Get(w.a.Ctx, c)
+		if err != nil {
+			return
+		}
+		blk, err := coreblock.GetFromBytes(b.RawData())
+		if err != nil {
+			return
+		}
+		for _, l := range blk.AllLinks() {
+			walk(l.Cid)
+		}
+	}
+	walk(root)
+	return missing, total
 }
 
 func (w *world) headSchemaVersion(docID, c string) string {
@@ -1035,8 +1108,8 @@ func (w *world) confirmStalled(s0 snap, pending []int, where string) *hx.Failure
 		return nil
 	}
 	if !arrived {
-		hx.Harnessf("C15 inconclusive at %s: retry bookkeeping frozen and the canary did not reach B within %v: cannot tell a dead link from a dead retry loop\n%s%s",
-			where, canaryBudget, s1.describe(w), w.tr)
+		w.tr.f("%s: canary did not reach B: cannot tell a dead link from a dead retry loop; waiting on", where)
+		return nil
 	}
 	sig := "C15/retry-stalled"
 	if s1.retryID == nil {
@@ -1386,8 +1459,37 @@ func (w *world) cleanReconnect() {
 	w.tr.f("clean reconnect of B done")
 }
 
+// heal clears the block-write fault on B. With B up it first waits (bounded, not an oracle) until
+// the fault has actually interrupted a sync, so that "interrupted, then healed" is what was run;
+// after a reopen the first effective push comes only when libp2p's dial back-off has expired.
+func (w *world) heal() {
+	if !w.faultArmed {
+		return
+	}
+	if w.b.up {
+		t0 := time.Now()
+		for time.Since(t0) < 20*time.Second {
+			if _, _, failed := w.b.fault.state(); failed > 0 {
+				break
+			}
+			time.Sleep(50 * time.Millisecond)
+		}
+	}
+	passed, failed := w.b.fault.heal()
+	w.faultArmed = false
+	w.tr.f("fault healed on B: %d block writes stored, %d failed while armed (B %s)", passed, failed, w.bView)
+	if failed > 0 {
+		w.info.set("sync-on-b-interrupted")
+		if passed > 0 {
+			w.info.set("sync-on-b-interrupted-after-partial-store")
+		}
+	} else {
+		w.info.set("fault-armed-but-never-fired")
+	}
+}
+
 func (w *world) waitDelivered(slot int) {
-	if slot < 0 || !w.b.up || !w.repSet {
+	if slot < 0 || !w.b.up || !w.repSet || w.faultArmed {
 		return
 	}
 	d := w.docs[slot]
@@ -1412,12 +1514,12 @@ func run(c Case, info *runInfo) *hx.Failure {
 		c.APubSubOff = false
 		w.c = c
 	}
-	w.a = bootPeerNode("A", !c.APubSubOff)
+	w.a = bootPeerNode("A", !c.APubSubOff, false)
 	defer w.a.shutdown()
 	if c.Boot || c.Config == "pubsub" {
-		w.b = bootPeerNode("B", true, w.a.p2pAddr())
+		w.b = bootPeerNode("B", true, true, w.a.p2pAddr())
 	} else {
-		w.b = bootPeerNode("B", true)
+		w.b = bootPeerNode("B", true, true)
 	}
 	defer w.b.shutdown()
 	w.tr.f("A=%s %s  B=%s %s", w.a.info.ID, w.a.addr, w.b.info.ID, w.b.addr)
@@ -1478,6 +1580,16 @@ func run(c Case, info *runInfo) *hx.Failure {
 			w.toggle(op)
 		case "setrep":
 			w.setReplicator()
+		case "fault":
+			k := op.V
+			if k < 0 {
+				k = 0
+			}
+			w.b.fault.arm(k)
+			w.faultArmed = true
+			w.tr.f("fault armed on B: block writes fail after %d more (B %s)", k, w.bView)
+		case "heal":
+			w.heal()
 		case "pause":
 			ms := op.Ms
 			if ms < 0 || ms > 10000 {
@@ -1486,6 +1598,9 @@ func run(c Case, info *runInfo) *hx.Failure {
 			time.Sleep(time.Duration(ms) * time.Millisecond)
 			w.tr.f("paused %dms", ms)
 		case "settle":
+			if op.Full {
+				w.heal() // nothing converges while B cannot store blocks
+			}
 			if c.Config != "pubsub" {
 				if f := w.converge(op.Full, fmt.Sprintf("checkpoint at step %d", i)); f != nil {
 					return f
@@ -1508,6 +1623,7 @@ func run(c Case, info *runInfo) *hx.Failure {
 	if !w.b.up {
 		w.toggle(Op{K: "up"})
 	}
+	w.heal()
 	if c.Config == "pubsub" {
 		return w.pubsubFinal()
 	}
